@@ -807,6 +807,8 @@ class ConfigParser(object):
       converted = known_properties.get(property_name, default)(v)
     except ValueError:
       raise ConfigParserException("Could not convert the value of [Species] property '{}' into a number. Value is = {}".format(property_name, v))
+    if isinstance(converted, float) and not math.isfinite(converted):
+      raise ConfigParserException("The value of [Species] property '{}' must be a finite number. Value is = {}".format(property_name, v))
     return converted
 
   @property
